@@ -197,8 +197,11 @@ def fillRefs (rowNo : Nat) : Int → List Cell → Res (List Cell)
       | .error _ => .err
       | .ok (col, _) => (fillRefs rowNo (if col > rc then col else rc) cs).map (c :: ·)
     else
+      -- the error is ignored; on a column error `CoordinatesToCellName` still returns ""+row
       let name := match coordinatesToCellName rc rowNo false with
-        | .ok n => n | .error _ => []
+        | .ok n => n
+        | .error _ =>
+          if rc < 1 ∨ (rowNo : Int) < 1 ∨ (rowNo : Int) > (Facts.TotalRows : Int) then [] else itoaInt rowNo
       (fillRefs rowNo rc cs).map ({ c with ref := name } :: ·)
 
 def targets (rowNo : Nat) : Nat → Option (List Cell)
